@@ -95,6 +95,43 @@ def overwritten_cause(res) -> str:
     return "summary-page-overwritten" if len(roots) == 1 else "summary-page-name-taken-by-root-module"
 
 
+def _docstrings(units: Dict[str, str]):
+    import ast
+    import inspect
+    for src in units.values():
+        try:
+            tree = ast.parse(src)
+        except SyntaxError:
+            continue
+        for node in ast.walk(tree):
+            if isinstance(node, (ast.Module, ast.ClassDef, ast.FunctionDef, ast.AsyncFunctionDef)):
+                d = ast.get_docstring(node, clean=False)
+                if d:
+                    yield inspect.cleandoc(d)
+
+
+def rst_target_kind(res, frag: str) -> str:
+    """what carries the id a dead '#rst-<id>' reference asks for, according to docutils itself (standard reader, with
+    its DocTitle transform) on the docstrings of the case: 'promoted-document-title' (the ids of a lone top-level section
+    end up on the document node), 'code-example' (a label before a doctest / literal / code block), else ''"""
+    from docutils import nodes
+    from docutils.core import publish_doctree
+    ident = frag[len("rst-"):] if frag.startswith("rst-") else frag
+    for doc in _docstrings(res["case"].get("units") or {}):
+        if "_" not in doc and "=" not in doc:
+            continue
+        try:
+            tree = publish_doctree(doc, settings_overrides={"report_level": 5, "halt_level": 5, "warning_stream": False})
+        except Exception:
+            continue
+        if ident in tree.get("ids", ()):
+            return "promoted-document-title"
+        for node in tree.traverse(nodes.Element):
+            if ident in node.get("ids", ()) and isinstance(node, (nodes.doctest_block, nodes.literal_block)):
+                return "code-example"
+    return ""
+
+
 def classify(res, fn: str, prod: str, href: str, label, why: str) -> str:
     t: oc.Truth = res["truth"]
     name = oc.PRODUCER_NAMES.get(prod, prod)
@@ -125,6 +162,11 @@ def classify(res, fn: str, prod: str, href: str, label, why: str) -> str:
         own = oc.canon_url(target["url"]).partition("#")[0] if target.get("url") else None
         here = oc.canon_file(fn)
         cause = "shortened-for-another-page" if (href.startswith("#") and own != here) else why
+        if cause == "shortened-for-another-page" and prod in ("xref", "xref-header") and any(
+                o.get("fieldtype") and o.get("url") and oc.canon_url(o["url"]).partition("#")[0] == here for o in t.objs):
+            # the page shows a variable whose type comes from an @type field: the field body is shared with the docstring
+            # it was written in, and ParsedDocstring.to_stan caches the rendering made for that docstring's page
+            return "dead-link:annotation:field-type-rendered-for-another-page"
     return "dead-link:%s:%s" % (name, cause)
 
 
@@ -163,6 +205,14 @@ def oracle(ctx: Ctx, res) -> None:
                 elif v.startswith("#") and ("rst-" + oc.unquote(v[1:])) in pg["anchors"]:
                     # markup written by docutils itself: pydoctor prefixes ids with 'rst-', this href was not
                     sig = "dead-link:rst-docstring:unprefixed-fragment"
+                elif v.startswith("#rst-") and "ctx:sidebar" in pg.get("rstrefs", {}).get(v, ()) and pg.get("plain_fallback"):
+                    # the docstring could not be rendered and is shown as plain text (no headings); the sidebar's table
+                    # of contents is built from the docutils tree all the same
+                    sig = "dead-link:docstring-toc:docstring-shown-as-plain-text"
+                elif v.startswith("#rst-") and not v.startswith("#rst-rst-") and rst_target_kind(res, oc.unquote(v[1:])) == "promoted-document-title":
+                    sig = "dead-link:rst-docstring:promoted-document-title"
+                elif v.startswith("#rst-") and not v.startswith("#rst-rst-") and rst_target_kind(res, oc.unquote(v[1:])) == "code-example":
+                    sig = "dead-link:rst-docstring:label-before-code-example"
                 elif v.startswith("#rst-") and not v.startswith("#rst-rst-") \
                         and set(pg.get("rstrefs", {}).get(v, ())) >= {"rst-reference", "rst-internal", "ctx:summary"} \
                         and not {"ctx:sidebar", "ctx:body", "rst-footnote-reference", "rst-citation-reference", "rst-toc-backref"} & set(pg["rstrefs"][v]) \
